@@ -100,6 +100,11 @@ func (cr ConsoleReporter) Submit(summary Summary) (err error) {
 					lines := strings.Split(content, "\n")
 					nrFmt := fmt.Sprintf("%%%dd", digits)
 					for i := report.Problem.Lines.First; i <= report.Problem.Lines.Last; i++ {
+						if i < 1 || i > len(lines) {
+							// YAML also breaks lines on a lone CR, so its line numbers can point
+							// past the lines we get from splitting on LF.
+							continue
+						}
 						buf.WriteString(output.MaybeColor(output.White, cr.noColor, fmt.Sprintf(nrFmt+" | %s\n", i, lines[i-1])))
 					}
 					buf.WriteString(strings.Repeat(" ", digits+3))
